@@ -2,8 +2,18 @@
    every iteration of the real Fixer.Fix loop and what the linter reports for them; the model of one
    iteration (Model/FixLoop.v [pass]) must lead to the files seen by the next iteration.
    The order in which the linter returns the violations of different files depends on the schedule of its
-   workers: it is an explicit permutation here.  No theorems. *)
-From Regal Require Export Base.StrLit Base.Packed Base.Perm Model.FixLoop.
+   workers: it is an explicit permutation here.
+   Rename mode: the candidate function is C13's model of renameCandidate (Model/Rename.v), so the model
+   iteration produces the numbered name itself; in addition every Rename request the file provider saw is
+   compared with the model's candidate loop (number of rounds, every name asked for).
+   directory-package-mismatch: what the real rule body and the real fix say about a package path at a
+   placement, against Model/DpmAgree.v.  No theorems. *)
+From Regal Require Model.Rename.
+From Regal Require Export Base.StrLit Base.Packed Base.Perm Model.FixLoop Model.DpmAgree.
+
+Definition real_candidate : str -> str := Regal.Model.Rename.rename_candidate.
+(* fuel of one candidate loop: more than any file set of the harness has files *)
+Definition RFUEL : nat := 64.
 
 Record oentry := { o_rule : rule; o_file : str; o_in : str; o_res : fix_result }.
 
@@ -14,10 +24,6 @@ Fixpoint table_fix (t : list oentry) (r : rule) (file content : str) : fix_resul
   | e :: t' => if rule_eqb (o_rule e) r && str_eqb (o_file e) file && str_eqb (o_in e) content
                then o_res e else table_fix t' r file content
   end.
-
-(* name given to a file renamed after a conflict: not modelled here (renameCandidate belongs to C13) *)
-Definition MARK : str := [0].
-Definition has_mark (f : fs) : bool := existsb (fun pc => str_eqb (fst pc) MARK) f.
 
 Record iter_case := {
   i_files : fs;                 (* files seen by this iteration *)
@@ -41,21 +47,77 @@ Definition fs_sub (a b : fs) : bool :=
 Definition fs_equiv (a b : fs) : bool := fs_sub a b && fs_sub b a && Nat.eqb (length a) (length b).
 
 Definition model_pass (c : iter_case) (vs : list violation) : pass_out :=
-  pass (table_fix (i_table c)) (i_rename c) (fun _ _ => MARK) vs (i_files c) [] false false.
+  pass (table_fix (i_table c)) (i_rename c) real_candidate RFUEL vs (i_files c) [] false false.
 
 Definition outcome_ok (c : iter_case) (o : pass_out) : bool :=
   match o with
-  | PErr => false
-  | POk files' made _ =>
-      has_mark files' || (Bool.eqb made (negb (i_last c)) && fs_equiv files' (i_next c))
+  | PErr | PFuel => false
+  | POk files' made _ => Bool.eqb made (negb (i_last c)) && fs_equiv files' (i_next c)
   end.
 
 Definition iter_agrees (c : iter_case) : bool :=
   existsb (fun p => outcome_ok c (model_pass c (concat p))) (perms (groups (i_viol c))).
 
+(* an iteration whose model ran out of candidate fuel (none expected: RFUEL exceeds every file set) *)
 Definition iter_unmodelled (c : iter_case) : bool :=
-  existsb (fun p => match model_pass c (concat p) with POk f _ _ => has_mark f | PErr => false end)
+  existsb (fun p => match model_pass c (concat p) with PFuel => true | _ => false end)
           (perms (groups (i_viol c))).
+
+(* ---- one handleRename as the file provider saw it: the files held when it started, the target of the
+        first Rename request, every name asked for in order, and whether the last request succeeded ---- *)
+Record rename_case := {
+  r_files : fs;
+  r_rename : bool;              (* OnConflictRename *)
+  r_asked : list str;           (* the [to] of every fp.Rename(from, to) of this handleRename *)
+  r_settled : bool }.           (* the last request was granted *)
+
+Fixpoint strs_eq (a b : list str) : bool :=
+  match a, b with
+  | [], [] => true
+  | x :: a', y :: b' => str_eqb x y && strs_eq a' b'
+  | _, _ => false
+  end.
+
+Definition rename_agrees (c : rename_case) : bool :=
+  match r_asked c with
+  | [] => false
+  | to :: _ =>
+      if r_rename c then
+        match rename_loop real_candidate RFUEL (r_files c) to with
+        | Some (k, name) =>
+            r_settled c
+            && strs_eq (r_asked c) (map (fun i => cand_iter real_candidate i to) (seq 0 (S k)))
+            && str_eqb (last (r_asked c) []) name
+        | None => false
+        end
+      else
+        (* OnConflictError: one request; granted iff the target is free *)
+        strs_eq (r_asked c) [to]
+        && Bool.eqb (r_settled c) (match fs_get (r_files c) to with None => true | Some _ => false end)
+  end.
+
+(* ---- directory-package-mismatch, function level ---- *)
+Inductive fix_obs := ObsNone | ObsMove (to : str) | ObsErr.
+
+Record dpm_place := { dp_file : str; dp_rule : nat; dp_fix : fix_obs }.
+Record dpm_case := { d_pkg : list str; d_exclude : bool; d_root : str; d_places : list dpm_place }.
+
+Definition fix_obs_agrees (c : dpm_case) (p : dpm_place) : bool :=
+  let root := split_on SLASH (d_root c) in
+  let dirs := file_dirs (dp_file p) in
+  let base := last (split_on SLASH (dp_file p)) [] in
+  match fix_answer_of (d_exclude c) (d_pkg c) root dirs, dp_fix p with
+  | FixRefuses, ObsErr => true
+  | FixInPlace, ObsNone => true
+  | FixMoveTo dirs', ObsMove to => str_eqb to (join [SLASH] (dirs' ++ [base]))
+  | _, _ => false
+  end.
+
+Definition dpm_place_agrees (c : dpm_case) (p : dpm_place) : bool :=
+  Nat.eqb (dp_rule p) (if rule_reports (d_exclude c) (d_pkg c) (file_dirs (dp_file p)) then 1 else 0)
+  && fix_obs_agrees c p.
+
+Definition dpm_agrees (c : dpm_case) : bool := forallb (dpm_place_agrees c) (d_places c).
 
 Fixpoint failing {A} (p : A -> bool) (i : nat) (l : list A) : list nat :=
   match l with
